@@ -344,6 +344,14 @@ func RunCheck(cfg *CheckConfig) *CheckOutcome {
 		}
 	}
 
+	if !cfg.SkipSelf {
+		if bad := w.SymbolicSelfTest(); len(bad) > 0 {
+			for _, b := range bad {
+				fmt.Println("  symbolic selftest:", b)
+			}
+			return notClaimed("engine symbolic self-test failed; nothing claimed")
+		}
+	}
 	var hs []string
 	for _, n := range names {
 		for _, p := range plan.Prefixes {
@@ -427,8 +435,9 @@ func RunCheck(cfg *CheckConfig) *CheckOutcome {
 		if rep.Incomplete {
 			incomplete = append(incomplete, h)
 		}
-		if rep.AssertPaths == 0 && len(rep.Findings) == 0 {
+		if (rep.AssertPaths == 0 && len(rep.Reach) == 0 && len(rep.Findings) == 0) || (rep.Completed == 0 && len(rep.Findings) == 0) {
 			vacuous = append(vacuous, h)
+			fmt.Println("VACUOUS-HARNESS:", h, "- no path reached an assertion; its obligations are not discharged")
 		}
 		inconclusive += rep.Inconclusive
 		sat += rep.SolverSat
